@@ -13,7 +13,7 @@ from multiprocessing import Pool
 from . import tlc
 
 VERIF = tlc.VERIF
-EVID = os.path.join(VERIF, "evidence")
+EVID = os.environ.get("VERIF_EVIDENCE_DIR") or os.path.join(VERIF, "evidence")  # override: development runs against mutants
 REPLAYS = os.path.join(VERIF, "build", "replays")
 KNOWN = os.path.join(VERIF, "KNOWN_FINDINGS.json")
 
